@@ -431,7 +431,27 @@ PROPS["C08"] = dict(
     assumptions=["the recording writers are mutex-protected and copy the payload before returning"],
     stages=[
         dict(name="race", run="^TestConcurrentWorkloads$", race=True, crash_is_violation=True, quick=400, thorough=16000, shards=8, timeout_quick=900, timeout_thorough=3000),
+        dict(name="shared-values", run="^TestSharedValues$", race=True, crash_is_violation=True, quick=150, thorough=8000, shards=8, timeout_quick=900, timeout_thorough=3000),
         dict(name="race-stress", run="^TestStress$", race=True, crash_is_violation=True, quick=10, thorough=400, shards=8, timeout_quick=900, timeout_thorough=3000),
         dict(name="norace-stress", run="^TestStress$", crash_is_violation=True, quick=30, thorough=2000, shards=8, timeout_thorough=3000),
     ],
 )
+
+# ---- additions of the ninth seeded round (the public API surface), appended to the rule texts ----
+_ROUND9 = {
+    "C02": " The normal or error writers may be handed over as ONE value of the exported list type slog.LWs (a hand-made list of NewLogWriter handles, or what GetWriter() of another logger returns): every member still gets the record in exactly one Write.",
+    "C04": " Fallback kinds include user types with the exported LogValuer interface (standing for a plain attribute or a group). One severity is a level registered under a drawn title that may need escaping (quote, backslash, CR/LF, ESC).",
+    "C05": " Fallback kinds include user types with the exported LogValuer interface. One severity is a level registered under a drawn title that may need quoting (quote, backslash, CR/LF, blank, '=', ESC): the level field must read back as that title.",
+    "C06": " The hygiene class draws, besides all value kinds, the package documentation's sample marshaller (Begin, AddString, AddComma, AddInt64, End) with hostile strings.",
+    "C08": " Stage shared-values (TestSharedValues, -race): values shared by the goroutines in every position the API allows (a Group as the value of a pair / of an Attr / inside an Attrs value / in a slice of groups, 2-64 members); the same calls with explicit times are made by one goroutine first and the multiset of payloads of the concurrent run must equal that reference; nobody may write to the shared values.",
+    "C10": " Lookups by name carry options in every other case (New(existing, opts...)): the existing child is returned as it is.",
+    "C11": " Children are also obtained through WithSkip(n) (the library keeps one child per count and hands it out again: its format is its own by then).",
+    "C13": " Destinations are handed over as slog.NewLogWriter handles in one case of four; records are issued through LogAttrs, through the std log bridge NewLogLogger(logger, severity).Print, or through WriteInternal (the half behind the gate: always admitted). Every call runs under a 60 s watchdog: a call that does not return is a violation.",
+    "C15": " The bridge is also used as a plain io.Writer: a stream of 1-4 messages is copied to NewLogLogger(...).Writer() with io.Copy and every message must be a record. The handler is built on a user-defined decorator struct{ slog.Logger } in one case of four.",
+    "C17": " A request for the error device is written in the three forms the variadic option allows ((true), () as documented, (false, true)), its absence as no option, (false) or (true, false). Every known level is probed through LogAttrs, Logit and NewLogLogger(logger, level).Print: routing and the level field (the title) must agree for all three.",
+    "C18": " Regexp mappings may be registered twice with different replacements and removed once. For every caller-field case, Source.Extract for a frame of the same file and the origin of an errors.v3 error created in that file (err.trace.file in JSON, the file/line line of the dump in text) must report the file exactly as the caller field does.",
+    "C19": " Inside real records: what a marshaller leaves unread must still be the front of the encoder when the next marshaller of the record (or a final sentinel marshaller) is entered, with strings of 5-4500 bytes printed in between and records printed by contexts made afresh (1024-byte buffers that grow on the way).",
+    "C20": " MustParseDuration, the parser's twin without an error result, must agree with ParseDuration on every accepted text (round trips and differential).",
+}
+for _pid, _txt in _ROUND9.items():
+    PROPS[_pid]["rule"] = PROPS[_pid]["rule"] + _txt
